@@ -68,6 +68,7 @@ class Trace(object):
         self.pos = 0
         self.decisions = []      # (text, outcome)
         self.signs = {}          # canonical key -> frozenset of possible signs {'-','0','+'}
+        self.sign_exprs = {}     # canonical key -> the (sign-normalised) Rat it stands for
         self.new_forks = []      # indices in decisions that were defaulted (not scripted)
         self.labels = {}         # opaque label key -> bool
 
@@ -147,6 +148,10 @@ class Interp(object):
         self.attr_hook = opts.get('attr_hook')             # f(interp, obj, name) -> value | NotImplemented
         self.ext_hooks = opts.get('ext_hooks', {})         # dotted -> f(interp, args, kwargs)
         self.fresh_counter = 0
+        self.func_stack = []
+        self._fp_cache = opts.setdefault('__fp_cache__', {})
+        self.abstract = opts.get('abstract', {})            # function qualname -> set of local names to abstract
+        self.definitions = []                               # [(qualname, local, occurrence, atom Rat, defining value)]
         self.events = []
         self._const_cache = {}
         self.global_overrides = opts.get('globals', {})    # (module name, global name) -> value
@@ -235,6 +240,8 @@ class Interp(object):
         if ks is not None:
             return {'eq': False, 'ne': True, 'lt': ks < 0, 'le': ks < 0, 'gt': ks > 0, 'ge': ks > 0}[op]
         sgn, key, text = _canon_diff(d)
+        if key not in self.trace.sign_exprs:
+            self.trace.sign_exprs[key] = d if sgn > 0 else -d
         if sgn < 0:
             op = {'lt': 'gt', 'le': 'ge', 'gt': 'lt', 'ge': 'le'}.get(op, op)
         accept = {'eq': '0', 'ne': '-+', 'lt': '-', 'le': '-0', 'gt': '+', 'ge': '0+'}[op]
@@ -587,9 +594,35 @@ class Interp(object):
         raise Undecidable('global statement')
 
     # ------------------------------------------------------------------ assignment
+    def _abstracted(self, name, v):
+        """let-abstraction: replace the value of a designated local by a fresh symbol and remember its definition"""
+        q = self.func_stack[-1] if self.func_stack else None
+        vals = self.opts.get('abstract_values', {}).get(q)
+        if vals and isinstance(v, Rat) and not v.is_const():
+            # value-directed: the local (whatever its name) holds a quantity the oracle knows under a tag
+            from .poly import fingerprint
+            fv = fingerprint(v)
+            for tag, value, atom in vals:
+                fp = self._fp_cache.get(id(value))
+                if fp is None and id(value) not in self._fp_cache:
+                    fp = self._fp_cache[id(value)] = fingerprint(value)
+                if fv is not None and fp is not None and abs(fv - fp) > 1e-7 * (1 + abs(fp)):
+                    continue
+                if v.equals(value):
+                    self.definitions.append((q, name, tag, atom, v))
+                    return atom
+        names = self.abstract.get(q)
+        if not names or name not in names or not isinstance(v, Rat) or v.is_const():
+            return v
+        occ = sum(1 for d in self.definitions if d[0] == q and d[1] == name)
+        base = '%s%s' % (name, "'" * occ)
+        atom = Rat.sym(base) if v.is_real() else Rat.csym(base)
+        self.definitions.append((q, name, occ, atom, v))
+        return atom
+
     def assign(self, tgt, v, env):
         if isinstance(tgt, ast.Name):
-            env.vars[tgt.id] = v
+            env.vars[tgt.id] = self._abstracted(tgt.id, v)
         elif isinstance(tgt, (ast.Tuple, ast.List)):
             items = self.iterate(v)
             if any(isinstance(e, ast.Starred) for e in tgt.elts):
@@ -1034,6 +1067,7 @@ class Interp(object):
         if self.depth > self.opts.get('max_depth', MAX_DEPTH):
             self.depth -= 1
             raise Undecidable('call depth exceeded at %s' % qual)
+        self.func_stack.append(qual)
         try:
             node = f.node
             env = Env(f.env, f.module)
@@ -1092,6 +1126,7 @@ class Interp(object):
             return None
         finally:
             self.depth -= 1
+            self.func_stack.pop()
 
     def ex_Yield(self, e, env):
         v = self.eval(e.value, env) if e.value is not None else None
